@@ -1,6 +1,7 @@
 (* C09 - Sensors attach to the nearest point of the right surface; weights sum to one.
    Property theorems only.  Models: Geom/Danielsson.v (danielsson.cpp), Geom/SensorsModel.v
-   (assembleSensors.cpp, sensors.h/.cpp), instantiated over the reals (Geom/V3R.v); the same Gallina
+   (assembleSensors.cpp, sensors.h/.cpp) - the code AS IT IS, including the stale weights of dist_point_geom -
+   instantiated over the reals (Geom/V3R.v); the same Gallina
    terms run over Q in the correspondence (Geom/RunC09.v).  Distances are squared distances (see the
    header of Danielsson.v). *)
 From Coq Require Import Reals QArith List.
@@ -65,26 +66,52 @@ Theorem interface_min_is_min : forall p ifc al0 st,
 Proof. exact ScanProofs.interface_min_is_min. Qed.
 Print Assumptions interface_min_is_min.
 
-(* dist_point_geom after the fix: commit: the weights belong to the returned triangle, which is nearest among
-   all boundaries of zero-conductivity domains, in any declaration order *)
-Theorem geom_alphas_belong_to_returned_triangle : forall p g al0 st,
+(* dist_point_geom AS IT IS.  The triangle and the distance handed back are right in every declaration order... *)
+Theorem geom_returns_nearest_triangle : forall p g al0 st,
   dist_point_geom Rops p g al0 = st -> gs_err st = None -> zero_bounds g <> [] ->
-  exists b mi ti t d ins, In b (zero_bounds g) /\ gs_near st = Some (fst b, mi, ti) /\ nth_tri (snd b) mi ti = Some t /\
-      gs_d st = Some d /\ dist_point_triangle Rops p (fst t) (vzero Rops) = DOk d (gs_al st) ins /\
-      forall b' mi' ti' t' d' al' ins', In b' (zero_bounds g) -> nth_tri (snd b') mi' ti' = Some t' ->
-        dist_point_triangle Rops p (fst t') (vzero Rops) = DOk d' al' ins' -> d <= d'.
-Proof. exact ScanProofs.geom_alphas_belong. Qed.
-Print Assumptions geom_alphas_belong_to_returned_triangle.
+  exists b mi ti t d al ins, In b (zero_bounds g) /\ gs_near st = Some (fst b, mi, ti) /\ nth_tri (snd b) mi ti = Some t /\
+      gs_d st = Some d /\ dist_point_triangle Rops p (fst t) (vzero Rops) = DOk d al ins /\ all_ge p (zero_bounds g) d.
+Proof. exact ScanProofs.geom_nearest_triangle. Qed.
+Print Assumptions geom_returns_nearest_triangle.
 
-(* the text of the pinned tree (caller's alphas handed to every interface scan) violated it: historical witness *)
-Theorem geom_alphas_pinned_refuted : exists (p : @vec Q) (g : @geometry Q) t al,
-  let st := dist_point_geom_pinned Qops p g (0%Q, 0%Q, 0%Q) in
+(* ... but the weights handed back are those of the nearest triangle of the LAST boundary scanned *)
+Theorem geom_alphas_are_of_last_boundary_scanned : forall p g al0 st l bl,
+  dist_point_geom Rops p g al0 = st -> gs_err st = None -> zero_bounds g = l ++ [bl] ->
+  exists mi ti t d ins, nth_tri (snd bl) mi ti = Some t /\
+      dist_point_triangle Rops p (fst t) (vzero Rops) = DOk d (gs_al st) ins /\ all_ge p [bl] d.
+Proof. exact ScanProofs.geom_alphas_of_last. Qed.
+Print Assumptions geom_alphas_are_of_last_boundary_scanned.
+
+(* geom_alphas_belong_to_returned_triangle, PARTIAL.  Extra hypothesis [last_is_strictly_nearest p l bl]: the boundaries
+   of zero-conductivity domains, in scan order, are l ++ [bl] and the last one, bl, has a triangle strictly nearer to p
+   than every triangle of the boundaries in l.  (With the hypothesis dropped the statement is false: next theorem.) *)
+Theorem geom_alphas_belong_to_returned_triangle_partial : forall p g al0 st l bl,
+  dist_point_geom Rops p g al0 = st -> gs_err st = None -> zero_bounds g = l ++ [bl] ->
+  last_is_strictly_nearest p l bl ->
+  exists b mi ti t d ins, In b (zero_bounds g) /\ gs_near st = Some (fst b, mi, ti) /\ nth_tri (snd b) mi ti = Some t /\
+      gs_d st = Some d /\ dist_point_triangle Rops p (fst t) (vzero Rops) = DOk d (gs_al st) ins /\ all_ge p (zero_bounds g) d.
+Proof. exact ScanProofs.geom_alphas_belong_partial. Qed.
+Print Assumptions geom_alphas_belong_to_returned_triangle_partial.
+
+(* instance: exactly one boundary of a zero-conductivity domain (only the air is non-conductive) *)
+Theorem geom_alphas_belong_single_boundary : forall p g al0 st bl,
+  dist_point_geom Rops p g al0 = st -> gs_err st = None -> zero_bounds g = [bl] ->
+  exists b mi ti t d ins, In b (zero_bounds g) /\ gs_near st = Some (fst b, mi, ti) /\ nth_tri (snd b) mi ti = Some t /\
+      gs_d st = Some d /\ dist_point_triangle Rops p (fst t) (vzero Rops) = DOk d (gs_al st) ins /\ all_ge p (zero_bounds g) d.
+Proof. exact ScanProofs.geom_alphas_belong_single. Qed.
+Print Assumptions geom_alphas_belong_single_boundary.
+
+(* REFUTED in general (DESIGN 4 row 12, known finding): two zero-conductivity domains, each bounded by one triangle;
+   the nearest triangle belongs to the first, the weights handed back are the second's.  Replayed on the real
+   dist_point_geom by the check every run. *)
+Theorem geom_alphas_belong_to_returned_triangle_refuted : exists (p : @vec Q) (g : @geometry Q) t al,
+  let st := dist_point_geom Qops p g (0%Q, 0%Q, 0%Q) in
   gs_near st = Some (0, 0, 0)%nat /\ nth_tri [[t]] 0 0 = Some t /\
   dist_point_triangle Qops p (fst t) (0%Q, 0%Q, 0%Q) = DOk 1%Q al true /\ gs_d st = Some 1%Q /\ gs_al st <> al.
 Proof.
   exists w12_p, w12_g, w12_T1, (qv (1 # 2) (1 # 4) (1 # 4)). vm_compute. repeat split. discriminate.
 Qed.
-Print Assumptions geom_alphas_pinned_refuted.
+Print Assumptions geom_alphas_belong_to_returned_triangle_refuted.
 
 Theorem row_support_le3_on_triangle : forall (ix : idx3) (al : @vec R),
   (length (write_row ix al) <= 3)%nat /\
@@ -102,21 +129,33 @@ Theorem constant_potential_read_back : forall (ix : idx3) (al : @vec R) (c : R),
 Proof. exact ScanProofs.constant_potential_read_back. Qed.
 Print Assumptions constant_potential_read_back.
 
-(* a whole row of Head2EEGMat: at most three entries on one triangle of a non-conductive boundary, that
-   triangle is nearest among those boundaries, the entries are its own non-negative weights summing to one,
-   and a constant potential is read back *)
-Theorem head2eeg_row_correct : forall g p r, ids_ok g -> zero_bounds g <> [] ->
+(* a whole row of Head2EEGMat as the code is (FULL): entries on the nearest triangle of the non-conductive
+   boundaries, values = non-negative weights summing to one (those of the nearest triangle of the last boundary
+   scanned), so a constant potential is read back *)
+Theorem head2eeg_row_weights : forall g p r l bl, ids_ok g -> zero_bounds g = l ++ [bl] ->
+  head2eeg_row Rops g p = Some r ->
+  exists b mi ti t d al0 ins al,
+    In b (zero_bounds g) /\ nth_tri (snd b) mi ti = Some t /\
+    dist_point_triangle Rops p (fst t) (vzero Rops) = DOk d al0 ins /\ all_ge p (zero_bounds g) d /\
+    r = write_row (snd t) al /\
+    (exists mi' ti' t' d' ins', nth_tri (snd bl) mi' ti' = Some t' /\
+        dist_point_triangle Rops p (fst t') (vzero Rops) = DOk d' al ins') /\
+    0 <= get3 al 0 /\ 0 <= get3 al 1 /\ 0 <= get3 al 2 /\ get3 al 0 + get3 al 1 + get3 al 2 = 1 /\
+    (distinct3 (snd t) -> row_sum r = 1 /\ forall c, row_apply Rops r (fun _ => c) = c).
+Proof. exact ScanProofs.head2eeg_row_weights. Qed.
+Print Assumptions head2eeg_row_weights.
+
+(* PARTIAL (same extra hypothesis as geom_alphas_belong_to_returned_triangle_partial): the entries are the returned
+   triangle's own weights *)
+Theorem head2eeg_row_correct_partial : forall g p r l bl, ids_ok g -> zero_bounds g = l ++ [bl] ->
+  last_is_strictly_nearest p l bl ->
   head2eeg_row Rops g p = Some r ->
   exists b mi ti t d al ins,
     In b (zero_bounds g) /\ nth_tri (snd b) mi ti = Some t /\
     dist_point_triangle Rops p (fst t) (vzero Rops) = DOk d al ins /\
-    r = write_row (snd t) al /\
-    (forall b' mi' ti' t' d' al' ins', In b' (zero_bounds g) -> nth_tri (snd b') mi' ti' = Some t' ->
-        dist_point_triangle Rops p (fst t') (vzero Rops) = DOk d' al' ins' -> d <= d') /\
-    0 <= get3 al 0 /\ 0 <= get3 al 1 /\ 0 <= get3 al 2 /\ get3 al 0 + get3 al 1 + get3 al 2 = 1 /\
-    (distinct3 (snd t) -> row_sum r = 1 /\ forall c, row_apply Rops r (fun _ => c) = c).
-Proof. exact ScanProofs.head2eeg_row_spec. Qed.
-Print Assumptions head2eeg_row_correct.
+    r = write_row (snd t) al /\ all_ge p (zero_bounds g) d.
+Proof. exact ScanProofs.head2eeg_row_spec_partial. Qed.
+Print Assumptions head2eeg_row_correct_partial.
 
 Theorem head2ecog_row_correct : forall ifc p r,
   head2ecog_row Rops ifc p = Some r ->
@@ -139,12 +178,18 @@ Print Assumptions weights_matrix_groups_by_label.
 
 (* hypotheses are satisfiable / the models compute what one expects on small instances *)
 Example head2eeg_row_example :
-  head2eeg_row Qops w12_g w12_p = Some [(0%nat, 1 # 2); (1%nat, 1 # 4); (2%nat, 1 # 4)]%Q.
+  head2eeg_row Qops w12_g w12_p = Some [(0%nat, 11 # 16); (1%nat, 1 # 16); (2%nat, 1 # 4)]%Q.
 Proof. exact C09Witness.head2eeg_row_example. Qed.
 Example weights_matrix_example :
   weights_matrix Qops [7; 3; 7; 9]%nat [1; 2; 3; 4]%Q = (3%nat, [[1; 0; 3; 0]; [0; 2; 0; 0]; [0; 0; 0; 4]]%Q).
 Proof. exact C09Witness.weights_matrix_example. Qed.
+(* the hypothesis of the partial theorem is satisfiable: same triangles, domains declared in the other order *)
+Example geom_other_order_example :
+  let st := dist_point_geom Qops w12_p w12_g' qzero in
+  gs_near st = Some (0, 0, 0)%nat /\ gs_d st = Some 1%Q /\ gs_al st = qv (1 # 2) (1 # 4) (1 # 4).
+Proof. exact C09Witness.geom_alphas_other_order_w. Qed.
+(* what the property asks for on the refuting input (the variant keeping the minimum's weights) *)
 Example geom_repaired_example :
-  let st := dist_point_geom Qops w12_p w12_g qzero in
+  let st := dist_point_geom_repaired Qops w12_p w12_g qzero in
   gs_near st = Some (0, 0, 0)%nat /\ gs_d st = Some 1%Q /\ gs_al st = qv (1 # 2) (1 # 4) (1 # 4).
 Proof. exact C09Witness.geom_alphas_repaired_w. Qed.
